@@ -6,9 +6,9 @@
      addr    reflect.Value.CanAddr()  (encodeDecimal takes v.Addr())
      hint    the ion.Type hint (NoType / SymbolType / ClobType / SexpType)
    Writer errors are not modelled (the Writer of the correspondence never fails), so
-   the errors are Marshal's own; Panic where the code panics; the unbounded recursion
-   of encodeWithAnnotation on a struct whose only fields are annotation fields (Go:
-   fatal stack overflow) is reported as Panic.
+   the errors are Marshal's own; Panic where the code panics.  A struct whose only
+   fields are annotation fields is an error (fix_annotation_only_struct; it used to
+   recurse without bound).
    Map iteration order: with EncodeSortMaps (MarshalText) the keys are sorted;
    without (MarshalBinary) Go's order is unspecified and the model uses the stored
    order.  User types implementing Marshaler are outside the universe. *)
@@ -111,7 +111,25 @@ Definition symtoks_of (g : gval) : option (list tok) :=
     fold_right (fun x acc => match x, acc with GSymTok t, Some r => Some (t :: r) | _, _ => None end) (Some []) l
   | _ => None
   end.
-Definition is_symtok_slice (t : gty) : bool := match t with TySlice TySymTok => true | _ => false end.
+Definition strings_of (g : gval) : option (list tok) :=
+  match g with
+  | GSlice None => Some []
+  | GSlice (Some l) =>
+    fold_right (fun x acc => match x, acc with GString t, Some r => Some (tok_text t :: r) | _, _ => None end) (Some []) l
+  | _ => None
+  end.
+(* annotations.Interface().(type): []SymbolToken or []string (an interface{} field is unwrapped by Interface()) *)
+Definition ann_tokens1 (t : gty) (g : gval) : option (list tok) :=
+  match t with
+  | TySlice TySymTok => symtoks_of g
+  | TySlice TyString => strings_of g
+  | _ => None
+  end.
+Definition ann_tokens (t : gty) (g : gval) : option (list tok) :=
+  match t with
+  | TyIface => match g with GIface (Some (dt, x)) => ann_tokens1 dt x | _ => None end
+  | _ => ann_tokens1 t g
+  end.
 
 Fixpoint any_ann (l : list field) : bool :=
   match l with [] => false | f :: r => f_ann f || any_ann r end.
@@ -142,7 +160,7 @@ Fixpoint enc_with_ann (rec : gty -> gval -> bool -> N -> res (list wcall)) (t : 
   {struct fl} : res (list wcall) :=
   match fl with
   | [] =>
-    if negb moved then Panic          (* encodeValue(original): unbounded recursion *)
+    if negb moved then Err            (* unreachable: enc_struct tests hasValue first *)
     else match cur with
          | None => Ok (acc ++ [CNull])              (* invalid reflect.Value *)
          | Some (ft, fv, fa) => do c <- rec ft fv fa TNoType; Ok (acc ++ c)
@@ -153,12 +171,10 @@ Fixpoint enc_with_ann (rec : gty -> gval -> bool -> N -> res (list wcall)) (t : 
       | W2Err => Err
       | W2Bad => Panic
       | W2At ft fv _ =>
-        if is_symtok_slice ft then
-          match symtoks_of fv with
-          | Some tks => enc_with_ann rec t g addr r cur moved (acc ++ [CAnnotations tks])
-          | None => Panic
-          end
-        else Err
+        match ann_tokens ft fv with
+        | Some tks => enc_with_ann rec t g addr r cur moved (acc ++ [CAnnotations tks])
+        | None => Err
+        end
       end
     else
       match walk_sub t g addr (f_path f) with
@@ -185,12 +201,15 @@ Definition enc_fields (rec : gty -> gval -> bool -> N -> res (list wcall)) (t : 
 Definition enc_struct (rec : gty -> gval -> bool -> N -> res (list wcall)) (t : gty) (g : gval) (addr : bool)
   : res (list wcall) :=
   do fields <- fields_for t;
-  if any_ann fields then enc_with_ann rec t g addr fields None false []
+  if any_ann fields then
+    if forallb f_ann fields then Err                 (* no field for the annotated value *)
+    else enc_with_ann rec t g addr fields None false []
   else
     match t with
     | TyTimestamp => match g with GTimestamp body => Ok [CTimestamp (N.of_nat (length body)) body] | _ => Panic end
     | TyTime => match g with GTime body => Ok [CTimestamp (N.of_nat (length body)) body] | _ => Panic end
-    | TyDecimal => match g with GDecimal d => if addr then Ok [CDecimal (Some d)] else Panic | _ => Panic end
+    | TyDecimal => match g with GDecimal d => Ok [CDecimal (Some d)] | _ => Panic end   (* a copy when not addressable *)
+    | TyBigInt => match g with GBigInt z => Ok [CBigInt (Some z)] | _ => Panic end
     | _ => enc_fields rec t g addr fields
     end.
 
